@@ -12,6 +12,9 @@ CHECKS = {
  "C02": dict(engine="E2", technique="explicit-state BFS of the cut graph (node = offset + exact concrete state, edge = next read length) covering all 2^(n-1) segmentations of each stream",
    text="For every stream of the corpus all segmentations are covered as paths of the exhaustively explored cut graph of the real channel/parser/receiver; all terminal observations must coincide.",
    note="merging only on byte-identical pickled state; node cap reported if hit; one fixed thread schedule", ref="DESIGN.md §4 C02"),
+ "C03": dict(engine="E5", technique="exhaustive enumeration of a finite language of application programs x request shapes on the real server, wire decoded by an independent client-side parser",
+   text="Every program of the response language (status class x delivery path x all chunk sequences up to the stated length x declared Content-Length relation x start_response re-call x failure step) crossed with method/version/Connection/pipelining depth is executed; the wire must parse as one complete response per executed request with the program's status, headers and body (cut at a declared length), undelimitable responses must end the connection, closure must be announced when known in advance, and a response that does not announce closing must be followed by service of the next request.",
+   note="one fixed schedule, client reads everything; HEAD-with-body and multi/non-decimal Content-Length applications are outside the quantifier", ref="DESIGN.md §4 C03"),
  "C06": dict(engine="E2", technique="exhaustive boundary enumeration of limits x sizes x read sizes + explicit-state token BFS under tiny limits on the real parser, against the reference verdict and a consumption bound",
    text="Every case of the boundary sweeps (head length vs header limit at -1/0/+1, declared and chunked body sizes around the body limit, unterminated lines past tiny limits, numbers of up to 10^5 digits, odd targets) x read sizes {1,7,8192}, and every token sequence up to the stated depth under limits (header 24, body 8), runs on the real server: refused messages never reach the application, exactly one well-formed 400/413/431/501 is sent and the socket closed, no exception escapes an event handler, nothing hangs, and consumption stops within one read of crossing the limit.",
    note="lookahead 0; one fixed schedule; a 20 s watchdog defines 'hang'", ref="DESIGN.md §4 C06"),
